@@ -37,6 +37,10 @@ def main(argv=None) -> int:
         return mod.run(ctx)
     except MachineryError as e:
         print(f"MACHINERY-FAILURE {pid}: {e}", file=sys.stderr)
+        if ctx.violations:
+            # violations judged by TLC before the machinery problem (e.g. a canary built from misbehaving output) stand
+            ctx.notes.append("run cut short by a machinery failure after violations had been established: " + str(e)[:300])
+            return ctx.finish(rule="(run cut short by a machinery failure; the violations listed were established before it)")
         return 2
     except Exception:
         traceback.print_exc()
